@@ -148,6 +148,8 @@ func jTokenize(b []byte) {
 	orc := "-"
 	if e, ok := expectTokens(b); ok {
 		orc = e
+	} else if strings.HasPrefix(impl, "NEXT-AFTER-ERROR") || strings.HasPrefix(impl, "DOES-NOT-TERMINATE") || strings.HasPrefix(impl, "SUBSLICE-VIOLATION") {
+		orc = "the contract of Next holds on invalid input too (termination, sub-slices, a sticky error)"
 	}
 	emit("j.tok", hexs(b), impl, orc)
 }
@@ -232,6 +234,24 @@ func c17() {
 	}
 	for _, s := range special {
 		jTokenize([]byte(s))
+	}
+	// containers with more than 65535 elements / members: Index counts on
+	{
+		var a, o strings.Builder
+		a.WriteString("[")
+		o.WriteString(`[true,{`)
+		for i := 0; i < 66000; i++ {
+			if i > 0 {
+				a.WriteString(",")
+				o.WriteString(",")
+			}
+			fmt.Fprintf(&a, "%d", i%10)
+			fmt.Fprintf(&o, `"k%d":[]`, i)
+		}
+		a.WriteString("]")
+		o.WriteString("},null]")
+		jTokenize([]byte(a.String()))
+		jTokenize([]byte(o.String()))
 	}
 	for i := 0; i < n; i++ {
 		d := genDoc(5)
